@@ -9,6 +9,7 @@ import SakuraVerif.Driver.ScriptOps
 import SakuraVerif.Driver.TimeOps
 import SakuraVerif.Model.Tie
 import SakuraVerif.Driver.ReserveOps
+import SakuraVerif.Props.C09
 open Sakura Sakura.Wire Sakura.Driver
 
 def handle (line : String) : String :=
@@ -39,6 +40,16 @@ def handle (line : String) : String :=
       let r := Sakura.Tie.flush (parseInt mode) (parseInt ch) (parseInt tb) (parseInt br) (parseInt tv) (parseEvents evs)
       s!"ok ev={showEvents r.1} br={r.2}"
   | ["reserve", prog] => "ok " ++ reserveRun prog
+  | "macrosubst" :: body :: args =>
+      "ok out=" ++ textOut (Sakura.Props.C09.substArgs (text body) (args.map text))
+  | ["rhythm", defs, body] =>
+      -- defs: comma separated `<char code>:<hex text>` overriding the regenerated built-in table
+      let user := (if defs == "~" then [] else defs.splitOn ",").map (fun d => match d.splitOn ":" with
+        | [c, t] => (parseNat c, text t) | _ => (0, []))
+      let table := fun c => match user.find? (fun p => p.1 == c) with
+        | some p => p.2
+        | none => match Sakura.Gen.rhythmMacro.find? (fun p => p.1 == c) with | some p => p.2 | none => []
+      "ok out=" ++ textOut (Sakura.Props.C09.rhythmExpand table ((text body).length + 1) (text body))
   | _ => "bad-op"
 
 partial def loop (h : IO.FS.Stream) (out : IO.FS.Stream) : IO Unit := do
